@@ -215,3 +215,48 @@ def special_values_rule(chk: Check, ctx: Any, rule: str) -> None:
             except (Unsupported, AnalysisError) as e:
                 chk.unknown(rule, key, anchor, f"{op} with {params!r}: abstract interpretation left the modelled subset: {e}")
     chk.floor(rule, "special-syntax ops x parameter values taken through decompiler and compiler", n, 250)
+
+
+def ssbs_values_rule(chk: Check, ctx: Any, rule: str) -> None:
+    """C04-R9: parameter values through the SsbScript decompiler and compiler (the spelling of the fallback text), two values of a kind per op."""
+    from ..engine.pipeline import Pipeline
+    from .c04 import STRING_VALUES, MARK_NAMES
+    repo = ctx.repo
+    P = Pipeline(repo, ctx.fold, max_steps=3_000_000)
+    anchor = repo.func("explorerscript.ssb_script.ssb_converting.ssb_decompiler:SsbScriptSsbDecompiler.convert")
+    pa = P.param
+
+    def val(p: Any) -> Any:
+        if isinstance(p, AObj):
+            return (p.cls.name, repr(sorted((k, v if not isinstance(v, dict) else sorted(v.items())) for k, v in p.attrs.items() if k != "indent")))
+        return p
+    cases: list[tuple[str, list[Any]]] = []
+    strs = STRING_VALUES
+    for i, v in enumerate(strs):
+        w = strs[(i + 7) % len(strs)]
+        cases.append((f"strings {v!r} + {w!r}", [pa("SsbOpParamConstString", v), pa("SsbOpParamConstString", w)]))
+    for i, v in enumerate(strs[:24]):
+        w = strs[(i + 5) % 24]
+        cases.append((f"language strings {v!r} / {w!r}", [pa("SsbOpParamLanguageString", {"english": v, "german": "zwei\nZeilen"}), 3,
+                                                          pa("SsbOpParamLanguageString", {"english": w}), pa("SsbOpParamLanguageString", {"french": v, "english": "e"})]))
+    for nm in MARK_NAMES:
+        cases.append((f"marks {nm!r}", [pa("SsbOpParamPositionMarker", nm, 2, 0, -1, 5), pa("SsbOpParamPositionMarker", nm + "2", 0, 2, 7, -3)]))
+    cases.append(("numbers", [0, -1, 65535, pa("SsbOpParamFixedPoint", 1, "50"), pa("SsbOpParamFixedPoint", -3, "0"), pa("SsbOpParamConstant", "CONST_X"), pa("SsbOpParamConstant", "$VAR")]))
+    n = 0
+    for label, params in cases:
+        key = f"ssbs:{label}"
+        n += 1
+        try:
+            ops = [P.op(0, "hm_op", params), P.op(1, "End", [])]
+            text, _sm = P.decompile_ssbs([P.info("GENERIC")], [ops], [None])
+            c2 = P.compile_ssbs(text)
+            back = c2.attrs["routine_ops"][0][0].attrs["params"]
+            a, b = [val(p) for p in params], [val(p) for p in back]
+            chk.decide(rule, key, a == b, anchor,
+                       f"{label}: the SsbScript text is `{[ln for ln in text.split(chr(10)) if 'hm_op' in ln][:1]}`; compiling it gives {[x for x, y in zip(b, a) if x != y][:2]} instead of "
+                       f"{[y for x, y in zip(b, a) if x != y][:2]}" if len(a) == len(b) else f"{label}: {len(a)} parameters come back as {len(b)}", "same values")
+        except PyExc as e:
+            chk.violation(rule, key, anchor, f"{label}: SsbScript decompile/compile fails with {e.cls_name}: {e.msg}")
+        except (Unsupported, AnalysisError) as e:
+            chk.unknown(rule, key, anchor, f"{label}: abstract interpretation left the modelled subset: {e}")
+    chk.floor(rule, "ops with two parameter values of a kind through the SsbScript decompiler and compiler", n, 60)
